@@ -90,6 +90,9 @@ func main() {
 	// Layer S: concurrent use of one scope (CAS creation of instances) under the controlled
 	// scheduler, computed by the sibling binary c20s (flavour schedm: metrics' atomics instrumented).
 	ev.MergeLayer(r, cov, "c20s-schedm", "layerS_concurrent_scope")
+	// real sessions (local and one-machine cluster) under the controlled scheduler: the
+	// counters of a result must be complete the moment Run returns
+	ev.MergeLayer(r, cov, "c19-sched", "layerS_result_scope_after_run")
 	cov["rule"] = "seq: every sequence over {Incr(c,s,±1), Value(c,s), Merge(s,t), Reset(s,t), Reset(s,nil), gob(s), transport(s)} with 1..3 registered counters and 3 scopes up to max_depth (thorough: one representative per canonical real state = presence, instance sharing and value of every (scope,counter) slot), each trace replayed on fresh real scopes and compared with a map model after every step; e2e: programs × rows × shards × executors, counters of Result.Scope() vs rows processed"
 	r.Finish(cov)
 }
